@@ -21,7 +21,7 @@ ASSUMPTIONS = ["CPython float/Fraction arithmetic", "nvmon.ref exact reference m
 FLOORS = {'quick': {'single': 1500, 'list': 300, 'ders0': 300, 'grid_point': 1000, 'grid_shape': 150, 'meval': 2000,
                     'corner': 300},
           'thorough': {'single': 15000, 'grid_point': 10000, 'meval': 20000}}
-MANDATORY_TAGS = ['ss:delta-half-integer', 'partial:zero-start-or-stop', 'partial:start==stop', 'square', 'large', 'ss:delta>2/3', 'container-grid', 'pdim3', 'rational', 'u:knot_full', 'u:knot', 'u:start', 'u:end', 'kv:unclamped', 'kv:range',
+MANDATORY_TAGS = ['grid:evaluator-asked-directly', 'ss:delta-half-integer', 'partial:zero-start-or-stop', 'partial:start==stop', 'square', 'large', 'ss:delta>2/3', 'container-grid', 'pdim3', 'rational', 'u:knot_full', 'u:knot', 'u:start', 'u:end', 'kv:unclamped', 'kv:range',
                   'ss:distinct', 'ss:one-direction', 'route:list', 'span:binary', 'dim4']
 TECHNIQUE = ("runtime monitoring: exact-arithmetic post-condition on every evaluators.*.evaluate() call (M-eval hook) and on "
              "each public evaluation entry point, under a class-enumerating seeded workload")
@@ -200,6 +200,16 @@ def check(case, ctx):
         if not ctx.check(len(pts) == total, 'grid/size', 'evalpts has %d points, documented size is %r -> %d (set via %s)'
                          % (len(pts), want, total, how), what='grid_shape'):
             continue
+        # (sixth hunt) the evaluator asked directly, without a range: the same grid over the domain of the shape (the property names
+        # evaluators.*Evaluator*.evaluate(datadict) as an entry point; its grid starts and ends on the domain corners)
+        if rep == 0:
+            with hooks.suspended():
+                direct = o.evaluator.evaluate(o.data)
+            ctx.tag('grid:evaluator-asked-directly')
+            ctx.check(len(direct) == len(pts) and all(abs(a_ - b_) <= 1e-12 * max(1.0, sc) for p_, q_ in zip(direct, pts) for a_, b_ in zip(p_, q_)),
+                      'grid/direct-evaluator-range', 'evaluator.evaluate(shape.data) without start / stop on the domain %r: %d points, first %r, last '
+                      '%r; evalpts has %d points, first %r, last %r' % (doms, len(direct), direct[:1], direct[-1:], len(pts), pts[:1], pts[-1:]),
+                      what='grid_point')
         per = [meval.grid_params(a, b, w) for (a, b), w in zip(doms, want)]
         idxs = list(range(total)) if total <= 40 else sorted(set([0, total - 1] + [rng.randrange(total) for _ in range(38)]))
         for f in idxs:
